@@ -87,6 +87,21 @@ fn pause(point: &'static str) {
     let h = hash64(format!("{}/{}/{}", PAUSE_SEED.load(Ordering::Relaxed), n, point).as_bytes());
     log(point, 0);
     let window = point.starts_with("set_overlay");
+    // rendezvous: a quarter of the analysing threads that are about to look a path up wait a moment for another one to
+    // arrive at the same point, and then both go on together. Random pauses pull threads apart; a check-then-act window
+    // between two *readers* is only met when they arrive together.
+    if point == "source_input:before-entry" && h % 4 == 1 && THREAD_TAG.with(|c| c.get()) >= 10 {
+        static ARRIVED: AtomicU64 = AtomicU64::new(0);
+        let mine = ARRIVED.fetch_add(1, Ordering::SeqCst);
+        if mine % 2 == 0 {
+            // the first of a pair waits for the second (or gives up); the second goes on at once
+            let started = Instant::now();
+            while ARRIVED.load(Ordering::SeqCst) == mine + 1 && started.elapsed() < Duration::from_micros(400) {
+                std::hint::spin_loop();
+            }
+        }
+        return;
+    }
     match h % 16 {
         | 0..=3 => std::thread::yield_now(),
         | 4 => std::thread::sleep(Duration::from_micros(50 + (h >> 8) % 500)),
